@@ -184,7 +184,7 @@ func (cs *ContractSet) parseFile(path, pkg string) error {
 				}
 				lm.Name, lm.Text = strings.TrimSpace(parts[0]), strings.TrimSpace(parts[1])
 			} else {
-				lm.Name, lm.Text = fmt.Sprintf("sanity.%s.%d", pkg, line), rest
+				lm.Name, lm.Text = "sanity["+rest+"]", rest
 			}
 			cs.Lemmas = append(cs.Lemmas, lm)
 			lastText = &lm.Text
